@@ -9,9 +9,11 @@ from vf.core import Ctx, HarnessError, require, sut
 
 META = {
     "rule": "templates: shipped instances with <= 61 items (a*, beng*, "
-            "asqas*, cl*_020/040) and constructed instances (all nine gen_bp "
-            "size classes - bins above 10^9 are rejected by InstanceSpace "
-            "with ValueError = clean rejection -, guillotine-cut k-bin "
+            "asqas*, cl*_020/040) and constructed instances (gen_bp size "
+            "classes tiny/small/medium/int8-edge/>126 items/thin int16-edge "
+            "and thin 2^30 bins - bins above 10^9 are "
+            "rejected by InstanceSpace with ValueError = clean rejection -, "
+            "guillotine-cut k-bin "
             "instances, tiny instances with <= 7 items, instances whose "
             "items are at most half the bin in both directions), stored in a fitting "
             "orientation in 7 of 8 draws (otherwise InstanceSpace may reject "
@@ -43,7 +45,13 @@ META = {
         "bin-count objective has equal lower and upper bound there "
         "(Hardness raises ValueError by design)",
         "Hardness is evaluated with a tiny inner budget (max_fes 2..6, "
-        "1..2 runs per setup)"],
+        "1..2 runs per setup)",
+        "templates with two large bin sides (e.g. 16380 x 16380) or one "
+        "side of 10^9 (admitted by InstanceSpace) are not generated: their "
+        "decoded instances contain items like 16380 x 2 or 10^9 x 3, for "
+        "which Instance.__new__ needs minutes and more than 8 GB (cost "
+        "limit of the constructor, DESIGN.md O3); shipped templates go up "
+        "to 2750 x 1220, generated ones to 16386 x 4"],
     "shards": [4, 16],
     "technique": "property-based testing: Hypothesis-generated templates x "
                  "real vectors (extreme values, float neighbours, many slack "
